@@ -261,6 +261,47 @@ fn hostile_shapes(quick: bool) -> Vec<(String, String, Option<String>)> {
     v.push(("nest-call".into(), format!("function f(x) -> x;\nprint(\"~\\n\", {});\n", wrap("f(", ")", "7")), Some("7\n".into())));
     v.push(("nest-let".into(), format!("print(\"~\\n\", {});\n", wrap("begin let v = ", " end", "8")), Some("8\n".into())));
     v.push(("nest-operators".into(), format!("print(\"~\\n\", 0{});\n", " + 1".repeat(d)), Some(format!("{}\n", d))));
+    // beyond the capacity of the bytecode format (u16 constants and locals, u8 arities): the program
+    // must either run correctly or be refused as a whole before anything runs - never wrap around
+    let n = 70_000usize;
+    let mut s = String::from("print(\"start\\n\");\nlet s = 0;\n");
+    let mut total: i64 = 0;
+    for i in 0..n {
+        s.push_str(&format!("s <- s + {};\n", 100_001 + i));
+        total += 100_001 + i as i64;
+    }
+    s.push_str("print(\"~\\n\", s);\n");
+    v.push(("capacity-constants-70000".into(), s, Some(format!("start\n{}\n", total as i32))));
+    let mut s = String::from("print(\"start\\n\");\nfunction big() -> begin\n");
+    for i in 0..n {
+        s.push_str(&format!("let l{} = {};\n", i, i % 1000));
+    }
+    s.push_str("l0 + l65535 + l65536 + l69999 end;\nprint(\"~\\n\", big());\n");
+    v.push(("capacity-locals-70000".into(), s, Some(format!("start\n{}\n", 0 + 65535 % 1000 + 65536 % 1000 + 69999 % 1000))));
+    let params: Vec<String> = (0..300).map(|i| format!("p{}", i)).collect();
+    let args: Vec<String> = (0..300).map(|i| i.to_string()).collect();
+    v.push((
+        "capacity-arguments-300".into(),
+        format!("print(\"start\\n\");\nfunction wide({}) -> p0 + p255 + p256 + p299;\nprint(\"~\\n\", wide({}));\n", params.join(", "), args.join(", ")),
+        Some(format!("start\n{}\n", 0 + 255 + 256 + 299)),
+    ));
+    v.push((
+        "capacity-method-arguments-300".into(),
+        format!("print(\"start\\n\");\nlet o = object begin function wide({}) -> p0 + p255 + p256 + p299; end;\nprint(\"~\\n\", o.wide({}));\n", params.join(", "), args.join(", ")),
+        Some(format!("start\n{}\n", 0 + 255 + 256 + 299)),
+    ));
+    let digits: Vec<String> = (0..300).map(|i| (i % 10).to_string()).collect();
+    v.push((
+        "capacity-print-arguments-300".into(),
+        format!("print(\"start\\n\");\nprint(\"{}\\n\", {});\n", "~".repeat(300), digits.join(", ")),
+        Some(format!("start\n{}\n", digits.join(""))),
+    ));
+    let mut s = String::from("print(\"start\\n\");\nlet o = object begin\n");
+    for i in 0..40_000 {
+        s.push_str(&format!("let f{} = {};\n", i, i % 1000));
+    }
+    s.push_str("end;\nprint(\"~\\n\", o.f0 + o.f32767 + o.f32768 + o.f39999);\n");
+    v.push(("capacity-fields-40000".into(), s, Some(format!("start\n{}\n", 0 + 32767 % 1000 + 32768 % 1000 + 39999 % 1000))));
     v.push(("nest-fields".into(), format!("let o = object begin let f = null; end;\no.f <- o;\nprint(\"~\\n\", null == o{}.f);\n", ".f".repeat(d)), Some("false\n".into())));
     v
 }
@@ -315,7 +356,16 @@ pub fn c10(ctx: &Ctx, rep: &mut Report) {
         rep.bump("c10-hostile-shape", name.split(|c: char| c.is_ascii_digit()).next().unwrap_or(&name).trim_end_matches('-'));
         if crash_freedom(rep, &name, "fml run", &run, &replay) {
             rep.nontrivial(hash_str(&src));
-            if let Some(e) = &expect {
+            if let (Some(e), true) = (&expect, name.starts_with("capacity-")) {
+                rep.bump("c10-capacity-shapes", if run.success() { "runs" } else { "refused" });
+                if !((run.success() && run.out_str() == *e) || (!run.success() && run.stdout.is_empty())) {
+                    rep.violation(
+                        &format!("C10:hostile-shape:{}", name),
+                        format!("{}: a program beyond the format's capacity must run correctly (stdout {:?}) or be refused before anything runs; observed {}", name, cli::truncate(e, 60), run.describe()),
+                        replay.clone(),
+                    );
+                }
+            } else if let Some(e) = &expect {
                 if !run.success() || run.out_str() != *e {
                     rep.violation(
                         &format!("C10:hostile-shape:{}", name),
